@@ -1,6 +1,8 @@
 (* C12 — Any failure of a user-supplied component surfaces as Err from the current call.
-   Statements only.  Writer side proved over the fault-injecting sink (fails the write of byte
-   number p and/or the flush); reader/merger/sorter sides: see evidence.not_proved. *)
+   Statements only.  Writer: the fault-injecting sink (fails the write of byte number p and/or the
+   flush).  Reader: a loader failing its j-th block load, an I/O error at any read inside a load.
+   Merger and sorter: a merge function failing its j-th call.  In every case: what does not reach the
+   fault is unchanged, the call that reaches it returns exactly that error, nothing panics. *)
 From Grenad.model Require Import Base Varint Block Trailer Writer Reader Merger IoModel.
 From Grenad.proofs Require Import IoProofs WriterHom IoWriter.
 
